@@ -96,6 +96,7 @@ func c12RegSets() {
 	// wrapper popped on A must be a member on B and is removed there; errors and
 	// redis.Nil must be those of go-redis' SPop on B (which then changes nothing).
 	c12Reg("SPop", &c12Entry{typ: "set", mtype: "set",
+		wire: func(s c12Step) [][]string { return [][]string{{"SPOP", s.K[0]}} },
 		gen: func(g *c12G) c12Step { return c12Step{K: []string{g.key("set")}} },
 		wrap: func(e *c12Env, ctx context.Context, s c12Step) (any, error) {
 			if s.X {
@@ -120,6 +121,9 @@ func c12RegSets() {
 		}})
 	// SRandMember(count) = SRANDMEMBER key count: validity against the reference set.
 	c12Reg("SRandMember", &c12Entry{typ: "set", mtype: "set",
+		wire: func(s c12Step) [][]string {
+			return [][]string{{"SRANDMEMBER", s.K[0], strconv.FormatInt(s.I[0], 10)}}
+		},
 		gen: func(g *c12G) c12Step { return c12Step{K: []string{g.key("set")}, I: []int64{g.small(-3, 5)}} },
 		wrap: func(e *c12Env, ctx context.Context, s c12Step) (any, error) {
 			if s.X {
